@@ -7,7 +7,7 @@ NETS = [("material", 1), ("material", 2), ("random-small", 1), ("random-wide", 1
 
 def plan(tier, seed):
     quick = tier == "quick"
-    cases = 14 if quick else 1200
+    cases = 20 if quick else 1200
     nets = ",".join(runner.net_path(f, s) for f, s in NETS)
     shards = []
     for i in range(16):
